@@ -128,6 +128,11 @@ class Parser:
             raise self._error(message)
         return self._advance()
 
+    def _check_reference(self, target: Node, message: str) -> None:
+        """Assignment and update targets must be a variable or a property."""
+        if not isinstance(target, (Identifier, MemberExpression)):
+            raise self._error(message)
+
     def _is_at_end(self) -> bool:
         """Check if we've reached the end of input."""
         return self.current.type == TokenType.EOF
@@ -652,6 +657,7 @@ class Parser:
             TokenType.RSHIFT_ASSIGN,
             TokenType.URSHIFT_ASSIGN,
         ):
+            self._check_reference(expr, "Invalid left-hand side in assignment")
             op = self._advance().value
             right = self._parse_assignment_expression(exclude_in)
             return AssignmentExpression(op, expr, right)
@@ -806,6 +812,7 @@ class Parser:
             TokenType.RSHIFT_ASSIGN,
             TokenType.URSHIFT_ASSIGN,
         ):
+            self._check_reference(left, "Invalid left-hand side in assignment")
             op = self._advance().value
             right = self._parse_assignment_expression(exclude_in)
             left = AssignmentExpression(op, left, right)
@@ -958,6 +965,9 @@ class Parser:
         if self._check(TokenType.PLUSPLUS, TokenType.MINUSMINUS):
             op_token = self._advance()
             argument = self._parse_unary_expression()
+            self._check_reference(
+                argument, "Invalid left-hand side expression in prefix operation"
+            )
             return UpdateExpression(op_token.value, argument, prefix=True)
 
         return self._parse_postfix_expression()
@@ -995,6 +1005,9 @@ class Parser:
                 expr = CallExpression(expr, args)
             elif self._check(TokenType.PLUSPLUS, TokenType.MINUSMINUS):
                 # Postfix increment/decrement
+                self._check_reference(
+                    expr, "Invalid left-hand side expression in postfix operation"
+                )
                 op = self._advance().value
                 expr = UpdateExpression(op, expr, prefix=False)
             else:
